@@ -29,8 +29,12 @@ func (g *G) quarantine(body []*S) map[string]int {
 	var one func(s *S, inSwitch, inThunk, yPost bool)
 	lst = func(ss []*S, inSwitch, inThunk, yPost bool) {
 		seenYield := false
-		for _, s := range ss {
-			one(s, inSwitch, inThunk || (inSwitch && seenYield), yPost)
+		for i, s := range ss {
+			// statements after a yielding statement move into a continuation thunk; a yielding
+			// compound statement that is followed by more statements moves, as a whole, into
+			// the first thunk of a Combine
+			moved := seenYield || (containsYield(s) && i < len(ss)-1)
+			one(s, inSwitch, inThunk || (inSwitch && moved), yPost)
 			if containsYield(s) {
 				seenYield = true
 			}
